@@ -479,7 +479,7 @@ def check(pid, tier, verif_seed):
     with open(os.path.join(OUT, "evidence", f"{pid}.json"), "w") as f:
         json.dump(ev, f, indent=1, sort_keys=True)
     print(f"{pid} {tier}: runs={len(records)} evaluations={evaluations} distinct_nontrivial={len(states_nontrivial)} "
-          f"known={len(known_seen)} violations={confirmed} wall={wall:.1f}s")
+          f"known={len(known_seen)} violations={confirmed} failing_runs={len(unknown)} wall={wall:.1f}s")
     if harness_errors:
         for h in harness_errors[:5]:
             print("HARNESS-ERROR:", h, file=sys.stderr)
